@@ -1,6 +1,7 @@
 package checks
 
 import (
+	"context"
 	"fmt"
 	"strings"
 	"testing"
@@ -148,6 +149,14 @@ func c18Eval(t *testing.T, run *h.Run, c c18Case, withPods bool) {
 				lb.ReconcileSetting("ns", fmt.Sprintf("set%d", i+1))
 				run.Count("setting_reconciles", 1)
 			}
+			if withPods && len(c.Nodes) > 0 {
+				// pods are created under the earlier population: what becomes of them after the edit is judged below
+				lb.ReconcileERS("ns", rs.Name)
+				run.Count("ers_reconciles", 1)
+				for _, p := range lb.Capture(stB).Pods() { // the kubelets start them: they are available when the edit comes
+					w.MakeReady(context.Background(), lb.API.Inner(), p)
+				}
+			}
 			mid := lb.Capture(stB)
 			var edited []client.Object
 			for _, o := range mid.Objs {
@@ -269,7 +278,54 @@ func c18Eval(t *testing.T, run *h.Run, c c18Case, withPods bool) {
 			viol(fmt.Sprintf("C18/panic: %v at %s", rr.Panic, rr.PanicSite), "")
 			return
 		}
-		for _, call := range l.API.Log {
+		firstLog := append([]*w.Call{}, l.API.Log...)
+		if c.Before != nil {
+			// pods that existed before this sync (created under an earlier population of settings): "only valid settings
+			// influence pods" - with the kubelets doing their part, repeated syncs leave every pod with the resources of
+			// the one valid setting selecting its node (or the template's when there is none)
+			ctx := context.Background()
+			for round := 0; round < len(c.Nodes)+3; round++ {
+				for _, p := range l.Capture(post).Pods() {
+					if p.DeletionTimestamp != nil {
+						w.RemovePod(ctx, l.API.Inner(), p)
+					} else if !w.IsReady(p) {
+						w.MakeReady(ctx, l.API.Inner(), p)
+					}
+				}
+				if rr := l.ReconcileERS("ns", rs.Name); rr.Panic != nil {
+					viol(fmt.Sprintf("C18/panic: %v at %s", rr.Panic, rr.PanicSite), "")
+					return
+				}
+				run.Count("ers_reconciles", 1)
+			}
+			end := l.Capture(post)
+			for _, p := range end.Pods() {
+				node := end.Node(w.TargetNode(p))
+				if p.DeletionTimestamp != nil || node == nil || p.Labels[v1.ExtendedDaemonSetNameLabelKey] != "foo" {
+					continue
+				}
+				var applicable []*v1.ExtendedDaemonsetSetting
+				for i, st := range status {
+					m, _ := c18Matches(c.Settings[i].Sel, node.Labels["k"])
+					if st != nil && st.Status.Status == v1.ExtendedDaemonsetSettingStatusValid && c.Settings[i].Ref == "foo" && m {
+						applicable = append(applicable, st)
+					}
+				}
+				if len(applicable) > 1 {
+					continue // judged by the conflict clause
+				}
+				want := corev1.ResourceRequirements{}
+				if len(applicable) == 1 {
+					want = applicable[0].Spec.Containers[0].Resources
+				}
+				run.Count("antecedent:C18/earlier-pod", 1)
+				if !apiequality.Semantic.DeepEqual(p.Spec.Containers[0].Resources, want) {
+					viol("C18/stale-pod: a pod created under a setting that is no longer the valid setting of its node keeps that setting's resources however often the replica set is synced",
+						fmt.Sprintf("pod %s names %q, resources %v, wanted %v", p.Name, p.Labels[v1.ExtendedDaemonSetSettingNameLabelKey], p.Spec.Containers[0].Resources.Requests, want.Requests))
+				}
+			}
+		}
+		for _, call := range firstLog {
 			if call.Kind != "Pod" || call.Verb != "create" {
 				continue
 			}
